@@ -18,7 +18,7 @@ use std::collections::{BTreeMap, HashMap};
 pub struct Entropy;
 pub static ENTROPY: Entropy = Entropy;
 
-pub const ENTRY_POINTS: [(&str, Op); 13] = [
+pub const ENTRY_POINTS: [(&str, Op); 14] = [
     ("SecretKey::new", Op::KeyNew),
     ("BlsSignature::new_secret_key", Op::KeyNewViaBls),
     ("SecretKeyEnum::new", Op::EnumNew),
@@ -34,6 +34,9 @@ pub const ENTRY_POINTS: [(&str, Op); 13] = [
     // the trait-level route with the CALLER's blinder (one value sealed for several recipients under a shared c1): c1 and c2
     // are then the caller's choice, the proof's own nonce is still the library's to draw
     ("BlsElGamal::seal_scalar_with_proof(caller's blinder)", Op::EgEncryptProofBlinder),
+    // the caller's message value makes a randomized library call of its own while the library reads it (`as_ref()` of a
+    // lazily-built message): the nested call and the call around it are two calls with the same inputs
+    ("ProofCommitment::generate(message value whose as_ref() calls generate)", Op::PokCommitNestedAsRef),
 ];
 const MODES: [&str; 5] = ["sequence", "threads", "incarnations", "seeds", "mixed"];
 
@@ -67,7 +70,7 @@ pub fn call_once(rec: &mut Rec, lib: &dyn Lib, g: Grp, op: Op, fx: &Fixture) -> 
             let blinder = rec.call(lib, g, Op::KeyFromHash, &[b"the caller's blinder"]).first().map(|b| b.to_vec()).unwrap_or_default();
             rec.call(lib, g, op, &[&fx.pk, &fx.sk, &blinder])
         }
-        Op::PokCommit | Op::PokTsGenerate => rec.call(lib, g, op, &[&fx.msg, &fx.sig]),
+        Op::PokCommit | Op::PokTsGenerate | Op::PokCommitNestedAsRef => rec.call(lib, g, op, &[&fx.msg, &fx.sig]),
         _ => return Err("not a randomized entry point".into()),
     };
     let v = match out {
@@ -118,6 +121,8 @@ pub fn call_once(rec: &mut Rec, lib: &dyn Lib, g: Grp, op: Op, fx: &Fixture) -> 
             let f = PokFields::parse(&v[0], sl).ok_or_else(bad)?;
             vec![("u", f.u), ("v", f.v)]
         }
+        // same labels for the outer and the nested call: they are compared with each other and with every other call
+        Op::PokCommitNestedAsRef => vec![("commitment-u", v[0][1..].to_vec()), ("commitment-secret-x", v[1].clone()), ("commitment-u", v[2][1..].to_vec()), ("commitment-secret-x", v[3].clone())],
         _ => vec![],
     })
 }
